@@ -587,6 +587,15 @@ class Interp:
             return UNKNOWN
         if isinstance(e, ast.Attribute):
             if isinstance(e.value, ast.Name) and e.value.id == self.selfname:
+                if self.f.cls is not None and e.attr.isupper() or (
+                        e.attr.startswith("_") and e.attr[1:].isupper()):
+                    # a class-level constant table
+                    try:
+                        v = self.ctx.folder.fold(e, self.f.module,
+                                                 self.f.cls, {})
+                        return self.wrap(self._plain(v))
+                    except Exception:
+                        pass
                 return Val(e.attr.lstrip("_"))
             try:
                 v = self.ctx.folder.fold(e, self.f.module, self.f.cls, {})
@@ -642,6 +651,11 @@ class Interp:
                 return Const(t) if t is not None else UNKNOWN
         if isinstance(fn, ast.Attribute):
             recv = self.eval(fn.value, env)
+            if isinstance(recv, Str) and fn.attr == "join" and \
+                    len(e.args) == 1:
+                joined = self._join(recv, e.args[0], env)
+                if joined is not None:
+                    return joined
             if isinstance(recv, Str):
                 if fn.attr == "replace":
                     return recv
@@ -683,6 +697,42 @@ class Interp:
             # through eval_fork's helper hook
             return _Alts(res)
         return UNKNOWN
+
+    def _join(self, sep, arg, env):
+        """sep.join(<comprehension over a constant sequence>)"""
+        items = None
+        if isinstance(arg, (ast.GeneratorExp, ast.ListComp)) and len(
+                arg.generators) == 1 and not arg.generators[0].ifs:
+            g = arg.generators[0]
+            seq = self.eval(g.iter, env)
+            if isinstance(seq, Const) and isinstance(seq.v, (tuple, list)):
+                items = []
+                for it in seq.v:
+                    e2 = dict(env)
+                    self.bind(g.target, self.wrap(it), e2)
+                    items.append(self.eval(arg.elt, e2))
+        elif isinstance(arg, (ast.List, ast.Tuple)):
+            items = [self.eval(x, env) for x in arg.elts]
+        if items is None:
+            return None
+        combos = [Str()]
+        for k, it in enumerate(items):
+            alts = list(it.alts) if isinstance(it, _Alts) else [it]
+            if not all(isinstance(a, Str) for a in alts):
+                return None
+            new = []
+            for c in combos:
+                for a in alts:
+                    # an empty piece contributes no separator in the shapes
+                    # the readers look at only when the separator is empty
+                    new.append(c + (sep if (k and sep.toks) else Str()) + a)
+            combos = new
+            if len(combos) > 4096:
+                return None
+        res = set(combos)
+        if len(res) == 1:
+            return next(iter(res))
+        return _Alts(res)
 
     def _helper(self, e):
         fn = e.func
